@@ -4836,6 +4836,17 @@ fn layout_section_parts<P: Platform>(
                             &mut mem_offset,
                         );
                     }
+                } else if program_segments.is_tls_segment(segment_id)
+                    && !args.should_output_partial_object()
+                    && let Some(tls_alignment) = segment_alignments.get(&segment_id)
+                {
+                    // The runtime computes TLS offsets on the assumption that the TLS segment
+                    // starts at an address that's a multiple of its alignment. The first TLS
+                    // section might have a smaller alignment than a later one (e.g. .tdata vs
+                    // .tbss), so we need to align the start of the segment explicitly.
+                    let aligned = tls_alignment.align_up(mem_offset);
+                    file_offset += (aligned - mem_offset) as usize;
+                    mem_offset = aligned;
                 }
             }
             OrderEvent::SegmentEnd(_) => {}
@@ -4961,6 +4972,13 @@ fn compute_segment_alignments<P: Platform>(
                     segment_alignments
                         .entry(segment_id)
                         .or_insert_with(|| args.loadable_segment_alignment());
+                    active_load_segments.push(segment_id);
+                } else if program_segments.is_tls_segment(segment_id) {
+                    // The alignment of the TLS segment is the maximum alignment of the sections
+                    // that it contains.
+                    segment_alignments
+                        .entry(segment_id)
+                        .or_insert(crate::alignment::MIN);
                     active_load_segments.push(segment_id);
                 }
             }
